@@ -62,6 +62,9 @@ func (in *Interp) registerIntrinsics(reg func(string, extFn)) {
 	})
 	r("vfChoice", func(in *Interp, fr *frame, fn *ssa.Function, args []Value) Value {
 		n := in.concreteInt(fr, args[0], "vfChoice")
+		if n <= 1 {
+			return in.mkInt(0) // the native version consumes nothing either
+		}
 		k := in.choice(n, "choice")
 		in.path.Nondets = append(in.path.Nondets, NondetRec{Kind: "choice", Val: uint64(k)})
 		return in.mkInt(int64(k))
@@ -122,6 +125,7 @@ func (in *Interp) registerIntrinsics(reg func(string, extFn)) {
 		p.NoteVals = append(p.NoteVals, args[0].(Str))
 		return nil
 	})
+	r("vfNativeNote", func(in *Interp, fr *frame, fn *ssa.Function, args []Value) Value { return nil })
 	r("vfSteps", func(in *Interp, fr *frame, fn *ssa.Function, args []Value) Value {
 		return in.mkInt(in.path.Steps)
 	})
